@@ -45,7 +45,14 @@ def markOf (buf : Bytes) : Bytes :=
      | none => DEFAULT_MARK)
   | none => DEFAULT_MARK
 
-theorem loadDocWith_of_parts (arr : List Block → List Block) (file version : Bytes) (xs : Nat)
+theorem pendingIds_allPlain (os : LObjects) (h : AllPlain os) : pendingIds os = [] := by
+  unfold pendingIds
+  rw [List.filterMap_eq_nil_iff]
+  intro p hp
+  obtain ⟨o, ho⟩ := h p hp
+  simp [ho]
+
+theorem loadDocWith_of_parts (arr : List Block → List Block) (arr2 : List ObjId → List ObjId) (file version : Bytes) (xs : Nat)
     (x0 : XTable) (size0 : Nat) (tr0 : Dict) (os : LObjects)
     (h0 : findFrom PDF_KW (file.length + 1) file 0 = some 0)
     (h1 : pHeader file = some version)
@@ -53,8 +60,8 @@ theorem loadDocWith_of_parts (arr : List Block → List Block) (file version : B
     (h3 : xrefAndTrailer (file.drop xs) = .ok (x0, size0, tr0))
     (h4 : tr0.get PREV = none) (h5 : x0.maxId + 1 < U32) (h6 : tr0.has ENCRYPT = false)
     (h7 : x0.sorted.foldl (loadStep file x0 x0.sorted.length) (.ok ([], [])) = .ok (os, []))
-    (h8 : arr [] = []) (h9 : AllPlain os) :
-    ∃ mark, loadDocWith arr file =
+    (h8 : arr [] = []) (h8' : arr2 [] = []) (h9 : AllPlain os) :
+    ∃ mark, loadDocWith arr arr2 file =
       .ok (Loaded.mk version mark tr0 (asObjects (os.map fun p => (p.1, unplain p.2))) x0.maxId xs) := by
   have hprev : prevLoop file (file.length + 2) none [] x0 tr0 = .ok (x0, tr0) := by
     simp [prevLoop]
@@ -63,7 +70,7 @@ theorem loadDocWith_of_parts (arr : List Block → List Block) (file version : B
   refine ⟨markOf file, ?_⟩
   unfold loadDocWith
   simp only [h0, List.drop_zero, h1, h2, hx, if_false, h3, h4, remove_absent tr0 PREV h4, hprev, hm, h6,
-    Bool.false_eq_true, h7, h8, mergeBlocksX_nil, Nat.add_sub_cancel]
+    Bool.false_eq_true, h7, h8, mergeBlocksX_nil, Nat.add_sub_cancel, pendingIds_allPlain os h9, h8', List.foldl_nil]
   have hmap : ∀ (F : ObjId × LObj → ObjId × Obj), (∀ p ∈ os, F p = (p.1, unplain p.2)) →
       os.map F = os.map fun p => (p.1, unplain p.2) := fun F hF => List.map_congr_left hF
   rw [hmap _ (by
